@@ -167,7 +167,14 @@ def oracle(case, obs, full_view):
     v = obs['view']
     if is_empty(v):
         return None
-    if v['fp'] is None:
+    if case['kind'] == 'writer_fail':
+        if v['fp'] is not None:
+            return ('update_cache raised %s half-way and left fingerprint %r over partial data '
+                    '(storage keys %s)' % (obs.get('update_raised'), v['fp'],
+                                           {k: v['keys_' + k] for k in ('types', 'attrs', 'effects')}))
+        return None
+    if v['fp'] is None and not (isinstance(case.get('tree'), dict) and
+                                case['tree'].get('fingerprint', 0) is None):
         return 'no fingerprint, but the handler serves data (storage keys %s)' % \
             {k: v['keys_' + k] for k in ('types', 'attrs', 'effects', 'buffs')}
     if case['kind'] in ('prefix', 'flip', 'zero') and case.get('tree_ok') is False:
@@ -227,6 +234,31 @@ def manager_regenerates(path):
 
 # ---------------------------------------------------------------------------
 
+def inconsistent_objs(rng):
+    """an object set update_cache cannot load back: a type names an effect that
+    is not in the set (the memory update raises after the effects are stored)"""
+    o = cl.gen_objs(rng, avoid_custom=True, id_base=500)
+    ghost = cl.gen_effect(rng, 1599, [], True)
+    o[0].append([599, None, None, [], [[1599, ghost]], None, [], []])
+    rng.shuffle(o[0])
+    return o
+
+
+def writer_fail_impl(case, path, probes):
+    from eos.cache_handler import JsonCacheHandler
+    if os.path.exists(path):
+        os.remove(path)
+    h = JsonCacheHandler(path)
+    h.update_cache(cl.mk_objs(case['first']), case['fp1'])
+    obs = {'raised': None, 'update_raised': None}
+    try:
+        h.update_cache(cl.mk_objs(case['second']), case['fp2'])
+    except Exception as e:  # noqa
+        obs['update_raised'] = type(e).__name__
+    obs['view'] = cl.handler_view(h, probes)
+    return obs
+
+
 def gen_cases(rng, tier):
     """-> (files, cases); a case = {kind, file, data(bytes) | tree}"""
     nfiles = 1 if tier == 'quick' else 20
@@ -254,6 +286,10 @@ def gen_cases(rng, tier):
             t = mutate_tree(rng, files[f]['tree'])
             cases.append({'kind': 'payload', 'file': f, 'tree': t,
                           'data': bz2.compress(json.dumps(t).encode('utf-8'))})
+    for _ in range(20 if tier == 'quick' else 400):
+        cases.append({'kind': 'writer_fail', 'file': 0, 'first': cl.gen_objs(rng, True, 500),
+                      'fp1': 'w1_0', 'second': inconsistent_objs(rng), 'fp2': 'w2_0',
+                      'data': b'writer%d' % len(cases)})
     return files, cases
 
 
@@ -291,6 +327,12 @@ def run(rep):
     mgr_fail = None
     for n, c in enumerate(cases):
         f = files[c['file']]
+        if c['kind'] == 'writer_fail':
+            c['tree_ok'] = None
+            c['probes'] = cl.probes_of([c['first'], c['second']])
+            obs_all.append(writer_fail_impl(c, path, c['probes']))
+            hist[c['kind']] = hist.get(c['kind'], 0) + 1
+            continue
         if 'tree' not in c:
             ok, tree = parse(c['data'])
             c['tree_ok'] = ok
@@ -341,7 +383,7 @@ def run(rep):
     disagreements = []
     try:
         exe = common.build_driver('cache')
-        idx = [n for n, c in enumerate(cases) if c['tree_ok'] and not has_nan(c['tree'])]
+        idx = [n for n, c in enumerate(cases) if c['tree_ok'] is True and not has_nan(c['tree'])]
         lines = ['C none'] + ['C ' + cl.j_line(cases[n]['tree']) for n in idx]
         out = common.run_driver(exe, lines)
         tag, st = cl.parse_state_line(out[0])
@@ -359,9 +401,23 @@ def run(rep):
             d = cl.view_diff(cl.model_view(st, files[cases[n]['file']]['probes']), ob['view'])
             if d:
                 disagreements.append((n, 'model vs impl: ' + d))
+        # writer-side failures: model update_cache (raises, partial state, no fingerprint)
+        widx = [n for n, c in enumerate(cases) if c['kind'] == 'writer_fail']
+        outs = cl.run_model_cases(exe, [[
+            'N', 'U %s %s' % (cl.j_line(cases[n]['first']), cl.j_line(cases[n]['fp1'])),
+            'U %s %s' % (cl.j_line(cases[n]['second']), cl.j_line(cases[n]['fp2']))] for n in widx])
+        for n, o in zip(widx, outs):
+            tag, st = cl.parse_state_line(o[2])
+            ob = obs_all[n]
+            if (tag == 'ok') != (ob['update_raised'] is None):
+                disagreements.append((n, 'writer: model %s, impl raised %s' % (tag, ob['update_raised'])))
+                continue
+            d = cl.view_diff(cl.model_view(st, cases[n]['probes']), ob['view'])
+            if d:
+                disagreements.append((n, 'writer after failed update, model vs impl: ' + d))
         # unreadable files: the model's construct None is empty
         for n, c in enumerate(cases):
-            if not c['tree_ok']:
+            if c['tree_ok'] is False:
                 ob = obs_all[n]
                 if ob['raised'] or not is_empty(ob['view']):
                     disagreements.append((n, 'unreadable file: impl not empty'))
@@ -380,6 +436,8 @@ def replay_obj(case, why, rep, dis):
          'case': {'kind': case['kind']}}
     if case['kind'] == 'payload':
         r['case']['tree'] = case['tree']
+    elif case['kind'] == 'writer_fail':
+        r['case'].update({k: case[k] for k in ('first', 'fp1', 'second', 'fp2')})
     else:
         r['case']['data_hex'] = case['data'].hex()
         if 'len' in case:
@@ -404,7 +462,7 @@ def finish(rep, files, cases, obs_all, full_views, disagreements, mgr_fail):
         why = oracle(cases[k], obs_all[k], full_views[cases[k]['file']])
         if why:
             # prefer the smallest failing payload as the replay
-            size = len(json.dumps(cases[k]['tree'])) if cases[k]['kind'] == 'payload' else 10 ** 9
+            size = len(json.dumps(cases[k]['tree'])) if cases[k]['kind'] == 'payload' else (len(json.dumps(cases[k]['second'])) if cases[k]['kind'] == 'writer_fail' else 10 ** 9)
             if best is None or size < best[0]:
                 best = (size, k, why)
     if best:
@@ -426,6 +484,14 @@ def replay(path):
     c = r['case']
     wd = cl.workdir('C16')
     p = os.path.join(wd, 'replay.json.bz2')
+    if c['kind'] == 'writer_fail':
+        obs = writer_fail_impl(c, p, cl.probes_of([c['first'], c['second']]))
+        why = oracle(c, obs, None)
+        cl.cleanup('C16')
+        print('second update_cache raised %s; fingerprint afterwards %r' % (
+            obs['update_raised'], obs['view']['fp']))
+        print('oracle:', why or 'property holds on this input')
+        return 1 if why else 0
     if 'tree' in c:
         data = bz2.compress(json.dumps(c['tree']).encode('utf-8'))
         case = {'kind': 'payload', 'tree': c['tree'], 'tree_ok': True}
